@@ -179,3 +179,25 @@ Theorem T02x_starred_sound : forall w e e',
   rw_starred e = Some e' -> forall en tr, eval w e' en tr = eval w e en tr.
 Proof. exact starred_sound. Qed.
 Print Assumptions T02x_starred_sound.
+
+(* fixes.simplify_dict_unpacks, fixes.simplify_collection_unpacks (repaired) *)
+Theorem T02x_dict_unpacks_sound : forall w e e',
+  rw_dict_unpacks e = Some e' -> forall en tr r, eval w e en tr = Some r -> eval w e' en tr = Some r.
+Proof. exact dict_unpacks_sound. Qed.
+Print Assumptions T02x_dict_unpacks_sound.
+
+Theorem T02x_unpacks_sound : forall w e e',
+  rw_unpacks e = Some e' -> forall en tr r, eval w e en tr = Some r -> eval w e' en tr = Some r.
+Proof. exact unpacks_sound. Qed.
+Print Assumptions T02x_unpacks_sound.
+
+(* the set / dict laws behind them *)
+Theorem T02x_set_absorb : forall l acc s,
+  fold_left set_add (fold_left set_add l acc) s = fold_left set_add l (fold_left set_add acc s).
+Proof. exact set_absorb. Qed.
+Print Assumptions T02x_set_absorb.
+
+Theorem T02x_dict_merge : forall d'' d d0, wfd d0 ->
+  dict_update d (dict_update d0 d'') = dict_update (dict_update d d0) d''.
+Proof. exact update_update. Qed.
+Print Assumptions T02x_dict_merge.
